@@ -12,7 +12,7 @@ import (
 // Engine T — retain/release typestate of pooled packets (DESIGN.md §3 T).
 
 func init() {
-	registerEngine("T", []string{"T1", "T2"}, runEngineT)
+	registerEngine("T", []string{"T1", "T2", "T6"}, runEngineT)
 }
 
 // refcounted describes a reference-counted type: how references are obtained, retained and released.
@@ -128,6 +128,7 @@ func runEngineT(p *Prog, o *obls) {
 				t1Caller(p, o, fn, call, spec)
 			})
 			t1Slots(p, o, fn, spec, &found)
+			t6Vacated(p, o, fn, spec)
 			t2Tag(p, o, fn, spec)
 			if fullFuncName(fn) == spec.get {
 				found++
@@ -614,4 +615,184 @@ func releasesSlotParam(p *Prog, g *ssa.Function, spec refcountSpec) (int, bool) 
 		}
 	})
 	return res, found
+}
+
+// t6Vacated (rule T6): a slot whose occupant was released does not keep pointing at it. When the ring gives up its
+// reference to the packet in a slot — directly or through a helper that releases the slot it is told to — the slot
+// must be assigned (nil or the new occupant) on every path from that release to the function's return, or the ring
+// be reset as a whole. A slot that still holds the released packet is released again the next time it is visited (the
+// count goes wrong while a retransmission may be holding the packet) and keeps it reachable for Get.
+func t6Vacated(p *Prog, o *obls, fn *ssa.Function, spec refcountSpec) {
+	slotsOf := func(v ssa.Value) bool { return loadsFieldKey(p, v, spec.slots) }
+	// slotKeyOfValue: v is the occupant loaded from slots[idx] (or the value variable of a range over the slots):
+	// returns a key identifying the slot
+	slotKeyOfValue := func(v ssa.Value) string {
+		switch x := p.origin(v).(type) {
+		case *ssa.UnOp:
+			if x.Op == token.MUL {
+				if ia, ok := x.X.(*ssa.IndexAddr); ok && slotsOf(ia.X) {
+					return "idx:" + p.pureKey(ia.Index)
+				}
+			}
+		case *ssa.Extract:
+			if nx, ok := x.Tuple.(*ssa.Next); ok && x.Index == 2 {
+				if rg, ok := nx.Iter.(*ssa.Range); ok && slotsOf(rg.X) {
+					return fmt.Sprintf("range:%p", nx)
+				}
+			}
+		}
+		return ""
+	}
+	slotKeyOfIndex := func(idx ssa.Value) string {
+		if ex, ok := p.origin(idx).(*ssa.Extract); ok && ex.Index == 1 {
+			if nx, ok := ex.Tuple.(*ssa.Next); ok {
+				if rg, ok := nx.Iter.(*ssa.Range); ok && slotsOf(rg.X) {
+					return fmt.Sprintf("range:%p", nx)
+				}
+			}
+		}
+		return "idx:" + p.pureKey(idx)
+	}
+	// releasesParamSlot: helper g releases slots[param k] and does not assign that slot afterwards on some path
+	releasesParamSlot := func(g *ssa.Function) int {
+		res := -1
+		if g == nil || g.Blocks == nil || !p.InUniverse(g) {
+			return res
+		}
+		instrsOf(g, func(in ssa.Instruction) {
+			c, ok := in.(*ssa.Call)
+			if !ok || calleeName(&c.Call) != spec.release || len(c.Call.Args) == 0 {
+				return
+			}
+			u, ok := p.origin(c.Call.Args[0]).(*ssa.UnOp)
+			if !ok || u.Op != token.MUL {
+				return
+			}
+			ia, ok := u.X.(*ssa.IndexAddr)
+			if !ok || !slotsOf(ia.X) {
+				return
+			}
+			par, ok := p.origin(ia.Index).(*ssa.Parameter)
+			if !ok {
+				return
+			}
+			// does g itself assign the slot on every path after the release?
+			assigned := true
+			if vacatedUnassigned(p, g, c, "idx:"+p.pureKey(ia.Index), slotsOf, slotKeyOfIndex, spec) {
+				assigned = false
+			}
+			if !assigned {
+				for i, q := range g.Params {
+					if q == par {
+						res = i
+					}
+				}
+			}
+		})
+		return res
+	}
+	n := 0
+	var bad []string
+	instrsOf(fn, func(in ssa.Instruction) {
+		c, ok := in.(*ssa.Call)
+		if !ok {
+			return
+		}
+		key := ""
+		if calleeName(&c.Call) == spec.release && len(c.Call.Args) > 0 {
+			key = slotKeyOfValue(c.Call.Args[0])
+			// a helper that releases the slot it is told to is judged where it is called (the caller may assign the
+			// slot right after the call)
+			if u, ok := p.origin(c.Call.Args[0]).(*ssa.UnOp); ok && key != "" {
+				if ia, ok := u.X.(*ssa.IndexAddr); ok {
+					if _, isPar := p.origin(ia.Index).(*ssa.Parameter); isPar {
+						if sites, closed := p.staticCallSites(fn); closed && len(sites) > 0 {
+							return
+						}
+					}
+				}
+			}
+		} else if k := releasesParamSlot(c.Call.StaticCallee()); k >= 0 && k < len(c.Call.Args) {
+			key = "idx:" + p.pureKey(c.Call.Args[k])
+		}
+		if key == "" {
+			return
+		}
+		n++
+		if vacatedUnassigned(p, fn, c, key, slotsOf, slotKeyOfIndex, spec) {
+			bad = append(bad, fmt.Sprintf("the occupant of a ring slot is released at %s, but a return can be reached without that slot being assigned nil or a new packet (and without the ring being reset): the slot keeps pointing at a packet the ring no longer owns and releases it again when it is next visited", p.instrPos(c)))
+		}
+	})
+	if n == 0 {
+		return
+	}
+	okey := funcKey(fn) + ":vacated"
+	if len(bad) > 0 {
+		o.bad("T6", okey, p.Pos(fn.Pos()), strings.Join(dedupe(bad), "; "))
+	} else {
+		o.ok("T6", okey, p.Pos(fn.Pos()), fmt.Sprintf("%d release(s) of slot occupants, each followed by an assignment of the slot (or a reset of the ring) on every path", n))
+	}
+}
+
+// vacatedUnassigned: from just after `rel` a return of fn can be reached without a store to the slot `key` and without
+// a reset of the whole ring.
+func vacatedUnassigned(p *Prog, fn *ssa.Function, rel ssa.Instruction, key string, slotsOf func(ssa.Value) bool, slotKeyOfIndex func(ssa.Value) string, spec refcountSpec) bool {
+	fills := func(in ssa.Instruction) bool {
+		switch x := in.(type) {
+		case *ssa.Store:
+			if ia, ok := x.Addr.(*ssa.IndexAddr); ok && slotsOf(ia.X) && slotKeyOfIndex(ia.Index) == key {
+				return true
+			}
+			if fa, ok := x.Addr.(*ssa.FieldAddr); ok && fieldKeyAddr(fa) == spec.slots {
+				return true // the ring replaced as a whole
+			}
+			// through a pointer to the slot (slot := &r.packets[i]; *slot = x)
+			if ia, ok := p.origin(x.Addr).(*ssa.IndexAddr); ok && slotsOf(ia.X) && slotKeyOfIndex(ia.Index) == key {
+				return true
+			}
+		case *ssa.Call:
+			if builtinName(&x.Call) == "clear" && len(x.Call.Args) == 1 && slotsOf(x.Call.Args[0]) {
+				return true
+			}
+		}
+		return false
+	}
+	b0 := rel.Block()
+	idx := instrIndex(rel)
+	for i := idx + 1; i < len(b0.Instrs); i++ {
+		if fills(b0.Instrs[i]) {
+			return false
+		}
+		if _, isRet := b0.Instrs[i].(*ssa.Return); isRet {
+			return true
+		}
+	}
+	seen := map[*ssa.BasicBlock]bool{}
+	work := append([]*ssa.BasicBlock{}, b0.Succs...)
+	for len(work) > 0 {
+		b := work[len(work)-1]
+		work = work[:len(work)-1]
+		if seen[b] {
+			continue
+		}
+		seen[b] = true
+		filled := false
+		for _, in := range b.Instrs {
+			if b == b0 && in == rel {
+				break // came round to the release again: that execution is judged on its own
+			}
+			if fills(in) {
+				filled = true
+				break
+			}
+			if _, isRet := in.(*ssa.Return); isRet && b != fn.Recover {
+				return true
+			}
+		}
+		if filled || b == b0 {
+			continue
+		}
+		work = append(work, b.Succs...)
+	}
+	return false
 }
